@@ -800,7 +800,12 @@ def _finish(m):
                         except Exception:
                             tv = None
                         if tv is not None and tv.kind == 'reg' and nm:
-                            if arg:
+                            if arg and ins.callee_name() == 'llvm.dbg.declare':
+                                # the parameter's address is taken: it lives in a stack slot; name the
+                                # incoming register by position and the slot as a variable
+                                if 0 < arg <= len(fn.params):
+                                    fn.param_names.setdefault(fn.params[arg - 1].name, nm)
+                            elif arg:
                                 fn.param_names.setdefault(tv.name, nm)
                             fn.var_names.setdefault(tv.name, nm)
         # successor / predecessor lists
